@@ -28,6 +28,8 @@ def children(ref):
 def usable(v, m):
     """the structure can be instantiated: well formed, every *required* child is a usable real segment/group"""
     ref = T.message_ref(v, m)
+    if '_' not in m and T.msh9_components(v) < 3:
+        return False        # one-part ids cannot be spelled in a two-component MSH-9: unreachable from text
     return _usable_ref(v, ref, top=True)
 
 
@@ -69,7 +71,7 @@ def anchor_index(v, ref):
 
 
 @st.composite
-def _tree(draw, v, ref, mode, places, unique, depth, rep_index=0, anchor=None, p_opt=4):
+def _tree(draw, v, ref, mode, places, unique, depth, rep_index=0, anchor=None, p_opt=4, force_first=False):
     out = []
     kids = children(ref)
     seen_names = set()
@@ -81,6 +83,8 @@ def _tree(draw, v, ref, mode, places, unique, depth, rep_index=0, anchor=None, p
         must = mn >= 1 or (anchor is not None and i == anchor)
         if rep_index > 0 and anchor is not None and i < anchor:
             continue
+        if force_first and not out and ((kind == 'SEG' and _seg_ok(v, name)) or (kind == 'GRP' and _usable_ref(v, r))):
+            must = True       # an otherwise empty group instance: its first usable child is made present
         if kind == 'SEG':
             if not _seg_ok(v, name):
                 continue
@@ -88,7 +92,7 @@ def _tree(draw, v, ref, mode, places, unique, depth, rep_index=0, anchor=None, p
             if unique and places[name] > 1 and not must:
                 continue
             if mode == 'required':
-                n = mn if not (anchor is not None and i == anchor) else max(mn, 1)
+                n = mn if not must else max(mn, 1)
             elif mode == 'all':
                 n = max(mn, 1)
             else:
@@ -103,7 +107,7 @@ def _tree(draw, v, ref, mode, places, unique, depth, rep_index=0, anchor=None, p
                 continue
             seen_names.add(name)
             if mode == 'required':
-                n = mn
+                n = mn if not must else max(mn, 1)
             elif mode == 'all':
                 n = max(mn, 1)
             else:
@@ -121,7 +125,8 @@ def _tree(draw, v, ref, mode, places, unique, depth, rep_index=0, anchor=None, p
                 sub = draw(_tree(v, r, mode, places, unique, depth + 1, rep, a if n > 1 or rep > 0 else None,
                                  max(p_opt - 1, 2)))
                 if not sub:
-                    sub = _first_nonempty(v, r, places, unique)
+                    sub = draw(_tree(v, r, mode, places, unique, depth + 1, rep, a if n > 1 or rep > 0 else None,
+                                     max(p_opt - 1, 2), True))
                 if sub:
                     out.append({'k': 'G', 'n': name, 'i': i, 'c': sub})
     return out
@@ -263,7 +268,7 @@ def conforming_segment_line(draw, v, name, sref, ec, p_opt=2):
 
 @st.composite
 def conforming_msh(draw, v, m, sref, ec, p_opt=1):
-    fixed = {1: None, 2: None, 9: S.msh9_text(v, m, ec), 12: v, 7: draw(S.hl7_date(3))}
+    fixed = {1: None, 2: None, 9: S.msh9_text(v, m, ec), 12: v}
     fields = draw(conforming_fields(v, sref, ec, p_opt, fixed))
     vals = [fields.get(i, '') for i in range(3, max(fields) + 1)]
     return 'MSH' + ec['FIELD'] + R.msh2(ec) + ec['FIELD'] + ec['FIELD'].join(R.trim(vals, ''))
